@@ -268,7 +268,6 @@ def sample_program_flow(rng, D):
             if seen_lt:
                 parts[i] = {"fam": "leakyrelu", "shape": c["shape"], "slope": 0.3}
             seen_lt = True
-    parts.sort(key=lambda c: 0 if c["fam"] == "logtanh" else 1)      # see sample_flow_cfg
     base = str(rng.choice(["standard", "standard", "diag", "cond_diag", "mademog", "plain"] if ctx else ["standard", "standard", "diag", "mademog", "plain"]))
     if D >= 2:
         # Sigmoid..Logit pairs clamp at eps (declared): their image is only +-13.8/T.  In 2-D (no reachability test) they
